@@ -161,8 +161,45 @@ func TestTrace(t *testing.T) {
 			if k%4 == 1 {
 				e.emitD(w, g, b, true, "rt:"+vstr, "rt-ic")
 			}
+			// unknown elements INSIDE nested models (struct fields, sequence-of-struct elements, map-of-struct values), every
+			// depth: non-critical and critical, both ignoreCritical settings, both readers.  The caller's flag has to reach
+			// the inner parser: critical + ignore must be skipped there too.  Thorough: every boundary of every nested value;
+			// quick: systematic all-fields value every boundary capped, random values a few boundaries.
+			if len(b) <= 20000 {
+				sites := e.NestedSites(b)
+				var pick []int
+				switch {
+				case allpos || (k == n && len(sites) <= 24):
+					for i := range sites {
+						pick = append(pick, i)
+					}
+				case k == n: // the all-fields value: first / last boundary of every nested value + a few more
+					for i, st := range sites {
+						if st.Pos == 0 || st.Pos == st.N || g.R.Intn(4) == 0 {
+							pick = append(pick, i)
+						}
+					}
+					if len(pick) > 40 {
+						g.R.Shuffle(len(pick), func(a, b int) { pick[a], pick[b] = pick[b], pick[a] })
+						pick = pick[:40]
+					}
+				case k < n && len(sites) > 0 && k%2 == 1:
+					pick = []int{g.R.Intn(len(sites)), g.R.Intn(len(sites))}
+				}
+				for _, si := range pick {
+					st := sites[si]
+					payload := g.bytes([]int{0, 1, 3, 10, 252}[g.R.Intn(5)])
+					nc := st.E.pickUnknown(g, false)
+					cr := st.E.pickUnknown(g, true)
+					where := fmt.Sprintf("@d%d%s:%d/%d", st.Depth, st.Path, st.Pos, st.N)
+					e.emitD(w, g, st.Make(tlvBytes(nc, payload)), false, "same:"+vstr, fmt.Sprintf("ins-nc%s:t=%d", where, nc))
+					e.emitD(w, g, st.Make(tlvBytes(nc, payload)), true, "same:"+vstr, fmt.Sprintf("ins-nc-ic%s:t=%d", where, nc))
+					e.emitD(w, g, st.Make(tlvBytes(cr, payload)), false, "err", fmt.Sprintf("ins-crit%s:t=%d", where, cr))
+					e.emitD(w, g, st.Make(tlvBytes(cr, payload)), true, "same:"+vstr, fmt.Sprintf("ins-crit-ic%s:t=%d", where, cr))
+				}
+			}
 			if k >= n && !allpos {
-				continue // systematic values: round trip only in the quick tier
+				continue // systematic values: top-level insertion only in the thorough tier
 			}
 			// unknown element insertion
 			els := e.Elements(b)
